@@ -22,7 +22,6 @@ Record verdict := {
   v_sleep_spacing : bool    (* the controller never saw two sleep-in/out commands < 120 ms apart *)
 }.
 
-Definition panel_of (o : opts) : panel := {| p_w := o_w o; p_h := o_h o; p_ox := o_ox o; p_oy := o_oy o |}.
 
 Definition wr_inside (p : panel) (w : wr) : bool :=
   match w with
